@@ -83,3 +83,146 @@ Section Gen.
     right. exists cs, t. auto.
   Qed.
 End Gen.
+
+(* ------------------------------------------------------------------------------------------ *)
+(* the score does not depend on the argument order                                              *)
+(* ------------------------------------------------------------------------------------------ *)
+From Coq Require Import Permutation.
+From HpoV Require Import Proofs.GroupP Proofs.BaseP.
+
+Lemma mapM_ext' {A B} (f g : A -> res B) l : (forall x, In x l -> f x = g x) -> mapM f l = mapM g l.
+Proof.
+  induction l as [|x l IH]; intros H; [reflexivity|]. cbn [mapM].
+  rewrite (H x (or_introl eq_refl)). destruct (g x); cbn [bind]; try reflexivity.
+  rewrite IH; [reflexivity|]. intros y Hy. apply H. right. exact Hy.
+Qed.
+
+Lemma NoDup_app_disj {A} (l1 l2 : list A) : NoDup l1 -> NoDup l2 -> (forall x, In x l1 -> In x l2 -> False) -> NoDup (l1 ++ l2).
+Proof.
+  induction l1 as [|x l1 IH]; intros N1 N2 D; [exact N2|]. inversion N1; subst. cbn [app]. constructor.
+  - intros Hin. apply in_app_iff in Hin as [Hin|Hin]; [contradiction|]. apply (D x); [left; reflexivity|exact Hin].
+  - apply IH; [assumption|exact N2|]. intros y Hy1 Hy2. apply (D y); [right; exact Hy1|exact Hy2].
+Qed.
+
+Lemma filter_NoDup' {A} (p : A -> bool) l : NoDup l -> NoDup (filter p l).
+Proof.
+  induction l as [|x l IH]; intros H; [constructor|]. inversion H; subst. cbn [filter].
+  destruct (p x); [constructor; [intros Hin; apply filter_In in Hin as [Hin _]; contradiction|]|]; auto.
+Qed.
+
+Section Sym.
+  Variable F : Type.
+  Variable fadd fsub fmul fdiv : F -> F -> F.
+  Variable fgt : F -> F -> bool.
+  Variable fis0 : F -> bool.
+  Variable fzero fnzero fone ftwo fmone : F.
+  Variable f_of_u16 : N -> F.
+  Variable fexp : F -> res F.
+  Variable ic : kind -> term -> F.
+  (* IEEE-754 addition is commutative *)
+  Hypothesis fadd_comm : forall x y, fadd x y = fadd y x.
+
+  Notation sim := (similarity F fadd fsub fmul fdiv fgt fis0 fzero fnzero fone ftwo fmone f_of_u16 fexp ic).
+
+  Variables (o : onto) (k : kind) (a b : term).
+  (* ancestor caches and annotation sets are ascending groups (C12) *)
+  Hypothesis Ha : sorted (t_allp a).
+  Hypothesis Hb : sorted (t_allp b).
+  Hypothesis Hsa : sorted (t_annots k a).
+  Hypothesis Hsb : sorted (t_annots k b).
+
+  Lemma common_sym : all_common_ancestor_ids a b = all_common_ancestor_ids b a.
+  Proof. unfold all_common_ancestor_ids, g_plus. apply g_inter_comm; apply g_add_sorted; assumption. Qed.
+
+  Lemma union_sym : union_ancestor_ids a b = union_ancestor_ids b a.
+  Proof. unfold union_ancestor_ids. apply g_union_comm; assumption. Qed.
+
+  Lemma resnik_sym : sim AResnik o k a b = sim AResnik o k b a.
+  Proof. cbn [similarity]. unfold resnik. rewrite common_sym. reflexivity. Qed.
+
+  Lemma graphic_sym : sim AGraphIc o k a b = sim AGraphIc o k b a.
+  Proof.
+    cbn [similarity]. unfold graphic. rewrite (N.eqb_sym (t_id a) (t_id b)), union_sym, common_sym. reflexivity.
+  Qed.
+
+  Lemma lin_sym : sim ALin o k a b = sim ALin o k b a.
+  Proof.
+    pose proof resnik_sym as R. cbn [similarity] in *. unfold lin. rewrite (fadd_comm (ic k a) (ic k b)), R. reflexivity.
+  Qed.
+
+  Lemma jc_sym : sim AJc o k a b = sim AJc o k b a.
+  Proof.
+    pose proof resnik_sym as R. cbn [similarity] in *. unfold jc.
+    rewrite (N.eqb_sym (t_id a) (t_id b)), (Bool.orb_comm (fis0 (ic k a))), (fadd_comm (ic k a) (ic k b)), R. reflexivity.
+  Qed.
+
+  Lemma relevance_sym : sim ARelevance o k a b = sim ARelevance o k b a.
+  Proof.
+    pose proof resnik_sym as R. pose proof lin_sym as L. cbn [similarity] in *. unfold relevance. rewrite R, L. reflexivity.
+  Qed.
+
+  Lemma infcoef_sym : sim AInfCoef o k a b = sim AInfCoef o k b a.
+  Proof.
+    pose proof resnik_sym as R. pose proof lin_sym as L. cbn [similarity] in *. unfold infcoef. rewrite R, L. reflexivity.
+  Qed.
+
+  (* the distance query can fail in the transcription (an unresolved id is a panic); whenever it
+     returns a value, the swapped query returns the same value *)
+  Lemma mapM_swap_Ok cs : forall ds,
+    mapM (fun c => do d1 <- dist_anc (q_fuel o) o a c ;; do d2 <- dist_anc (q_fuel o) o b c ;;
+                   Ok match d1, d2 with Some x, Some y => Some (x + y) | _, _ => None end) cs = Ok ds ->
+    mapM (fun c => do d1 <- dist_anc (q_fuel o) o b c ;; do d2 <- dist_anc (q_fuel o) o a c ;;
+                   Ok match d1, d2 with Some x, Some y => Some (x + y) | _, _ => None end) cs = Ok ds.
+  Proof.
+    induction cs as [|c cs IH]; intros ds H; cbn [mapM] in *; [exact H|].
+    destruct (dist_anc (q_fuel o) o a c) as [d1| | |]; cbn [bind] in H; try discriminate.
+    destruct (dist_anc (q_fuel o) o b c) as [d2| | |]; cbn [bind] in H |- *; try discriminate.
+    destruct (mapM _ cs) as [ds'| | |] eqn:E; cbn [bind] in H; try discriminate.
+    rewrite (IH ds' eq_refl). cbn [bind]. rewrite <- H. f_equal. f_equal.
+    destruct d1, d2; try reflexivity. rewrite N.add_comm. reflexivity.
+  Qed.
+
+  Lemma distance_sym r : sim ADistance o k a b = Ok r -> sim ADistance o k b a = Ok r.
+  Proof.
+    cbn [similarity]. unfold distance_sim, dist_term. rewrite common_sym.
+    destruct (resolve_all o (all_common_ancestor_ids b a)) as [cs| | |]; cbn [bind]; try discriminate.
+    intros H. destruct (mapM _ cs) as [ds| | |] eqn:E; cbn [bind] in H; try discriminate.
+    rewrite (mapM_swap_Ok cs ds E). cbn [bind]. exact H.
+  Qed.
+
+  (* |A ∪ B| and |A ∩ B| do not depend on the order *)
+  Lemma mutation_sym : sim AMutation o k a b = sim AMutation o k b a.
+  Proof.
+    cbn [similarity]. unfold mutation. rewrite (N.eqb_sym (t_id a) (t_id b)).
+    destruct (t_id b =? t_id a); [reflexivity|].
+    set (sa := t_annots k a). set (sb := t_annots k b).
+    assert (NoDup sa) as Na by (apply sorted_NoDup, Hsa). assert (NoDup sb) as Nb by (apply sorted_NoDup, Hsb).
+    assert (forall (l1 l2 : list N), NoDup l1 -> NoDup l2 -> NoDup (l1 ++ filter (fun x => negb (mem x l1)) l2)) as NDu.
+    { intros l1 l2 N1 N2. apply NoDup_app_disj; [exact N1| |].
+      - apply filter_NoDup', N2.
+      - intros x H1 H2. apply filter_In in H2 as [_ H2]. apply Bool.negb_true_iff in H2. apply mem_In in H1. congruence. }
+    assert (forall (l1 l2 : list N) x, In x (l1 ++ filter (fun x => negb (mem x l1)) l2) <-> In x l1 \/ In x l2) as InU.
+    { intros l1 l2 x. rewrite in_app_iff, filter_In. split; [intros [H|[H _]]; auto|].
+      intros [H|H]; [left; exact H|]. destruct (mem x l1) eqn:E; [left; apply mem_In, E|right; split; [exact H|reflexivity]]. }
+    assert (Nlen (sa ++ filter (fun x => negb (mem x sa)) sb) = Nlen (sb ++ filter (fun x => negb (mem x sb)) sa)) as Eu.
+    { unfold Nlen. f_equal. apply Permutation_length, NoDup_Permutation; [apply NDu; assumption|apply NDu; assumption|].
+      intros x. rewrite !InU. tauto. }
+    assert (Nlen (filter (fun x => mem x sb) sa) = Nlen (filter (fun x => mem x sa) sb)) as Ec.
+    { unfold Nlen. f_equal. apply Permutation_length, NoDup_Permutation.
+      - apply filter_NoDup', Na.
+      - apply filter_NoDup', Nb.
+      - intros x. rewrite !filter_In, !mem_In. tauto. }
+    destruct (sa ++ filter (fun x => negb (mem x sa)) sb) as [|u0 ul] eqn:E1;
+      destruct (sb ++ filter (fun x => negb (mem x sb)) sa) as [|v0 vl] eqn:E2; try (unfold Nlen in Eu; cbn in Eu; lia).
+    - reflexivity.
+    - rewrite Ec, Eu. reflexivity.
+  Qed.
+
+  (* whenever a score is returned, the swapped call returns the same score (all 8 algorithms) *)
+  Theorem similarity_symmetric g r : sim g o k a b = Ok r -> sim g o k b a = Ok r.
+  Proof.
+    destruct g; intros H;
+      [rewrite <- graphic_sym|rewrite <- resnik_sym|rewrite <- lin_sym|rewrite <- jc_sym|rewrite <- relevance_sym
+      |rewrite <- infcoef_sym|apply distance_sym|rewrite <- mutation_sym]; exact H.
+  Qed.
+End Sym.
